@@ -213,9 +213,15 @@ fn backup_driver(name: &'static str, data_pack: u32, tree_pack: u32, idx_max: us
 }
 
 fn prune_driver(name: &'static str, fast: bool) -> Driver {
+    prune_driver_with(name, fast, 600, 500, false)
+}
+
+/// `repack_all` with one-blob packs: the repack writes more packs per blob type than the pack
+/// writer pipeline holds at once
+fn prune_driver_with(name: &'static str, fast: bool, data_pack: u32, tree_pack: u32, repack_all: bool) -> Driver {
     // three snapshots of the evolving source, the first two forgotten: prune has packs to repack
     let env = Env::single();
-    _ = env.init_with(config_with_packs(2, 600, 500)).expect("init");
+    _ = env.init_with(config_with_packs(2, data_pack, tree_pack)).expect("init");
     let mut expect = std::collections::BTreeMap::new();
     for v in 0..3 {
         let t = crate::c02::source(v);
@@ -240,6 +246,7 @@ fn prune_driver(name: &'static str, fast: bool) -> Driver {
                     .max_unused(LimitOption::Percentage(0))
                     .max_repack(LimitOption::Unlimited)
                     .fast_repack(fast)
+                    .repack_all(repack_all)
                     .keep_delete(jiff::Span::new());
                 let plan = repo.prune_plan(&opts).map_err(|e| e.display_log())?;
                 let n = plan.repack_packs().len();
@@ -291,7 +298,7 @@ pub fn run(args: &Args, rep: &mut Report) {
     let bound = if quick { 3 } else { 4 };
     let max_execs = if quick { 150 } else { 40_000 };
     rep.set_meta("bounds", json!(format!(
-        "completion orders of concurrently pending backend calls with <= {bound} deviations from oldest-first, <= {max_execs} executions per driver and shard; drivers: backup (one-blob packs / 3-blob packs / default packs, mid-run index saves), prune repack (fast, slow), copy; one CPU (pariter window 2), RAYON_NUM_THREADS=1")));
+        "completion orders of concurrently pending backend calls with <= {bound} deviations from oldest-first, <= {max_execs} executions per driver and shard; drivers: backup (one-blob packs / 3-blob packs / default packs, mid-run index saves), prune repack (fast, slow; repack-all with one-blob packs fast, slow), copy; one CPU (pariter window 2), RAYON_NUM_THREADS=1")));
     rep.set_meta("assumptions", json!(["interleavings are explored at the granularity of backend calls with all internal stages run to quiescence in between (DESIGN.md §8)"]));
     let drivers: Vec<Driver> = vec![
         backup_driver("backup/one-blob-packs", 10, 10, 0),
@@ -300,6 +307,8 @@ pub fn run(args: &Args, rep: &mut Report) {
         backup_driver("backup/default-packs", 4 * 1024 * 1024, 4 * 1024 * 1024, 0),
         prune_driver("prune/repack-fast", true),
         prune_driver("prune/repack-slow", false),
+        prune_driver_with("prune/repack-all-fast/one-blob-packs", true, 10, 10, true),
+        prune_driver_with("prune/repack-all-slow/one-blob-packs", false, 10, 10, true),
         copy_driver("copy/one-blob-packs"),
     ];
     if let Some(p) = &args.replay {
